@@ -87,16 +87,31 @@ class C05(Prop):
                 if wvec:
                     W = [list(W[0]) for _ in range(n)]
                 sys["wvec"] = bool(wvec)
+                # targets handed over in column-major memory order (e.g. a transposed stack, DataFrame.to_numpy())
+                sys["forder"] = bool(rng.random() < 0.35)
+                # W='inverse' of the library function: every weight is one over its own target (gaussian only, direct call)
+                sys["winv"] = bool(proc == "gaussian" and (not wvec) and rng.random() < 0.3 and all(v > 0 for r in rows for v in r))
+                if sys["winv"]:
+                    W = [[1.0 / v for v in r] for r in rows]
                 systems[key] = ({k: (v.tolist() if isinstance(v, np.ndarray) else v) for k, v in sys.items()}, rows, W, kinds)
             sysd, rows, W, kinds = systems[key]
             cases.append({"proc": proc, "n": n, "bs": b, "sys": sysd, "B": rows, "W": W, "tk": kinds,
-                          "kind": "%s/%s%s" % (proc, combo_kind(n, b), "/wvec" if sysd.get("wvec") else "")})
+                          "kind": "%s/%s%s" % (proc, combo_kind(n, b), "/wvec" if sysd.get("wvec") else "") + ("/F" if sysd.get("forder") else "") + ("/Winv" if sysd.get("winv") else "")})
         return cases
 
     def call(self, case, bs):
         from p_C04 import C04
         sys = C04.sysnp(case)
         B = np.array(case["B"], dtype=float); W = np.array(case["W"], dtype=float)
+        if case["sys"].get("forder"):
+            B = np.asfortranarray(B)
+        if case["sys"].get("winv"):
+            from dreye.api.optimize.lsq_linear import lsq_linear
+            core.drain_hooks()
+            X, Bp = lsq_linear(sys["A"], B, lb=sys["lb"], ub=sys["ub"], W="inverse", K=(None if sys["K"] is None else np.atleast_1d(sys["K"])),
+                               baseline=sys["baseline"], batch_size=bs, return_pred=True, **HI)
+            recs = [r[1] for r in core.drain_hooks() if r[0] == "solve"]
+            return np.asarray(X, dtype=float), np.asarray(Bp, dtype=float), recs
         if case["sys"].get("wvec"):
             est = gs.make_estimator(sys, w=W[0])          # per-receptor weights given once, as a vector
             est.register_targets(B)
